@@ -13,6 +13,7 @@ for P in sys.argv[1:]:
         m = json.load(open(os.path.join(src, "meta.json")))
         cmd = m.get("demo_cmd", "")
         cmd = re.sub(r"^\s*cp\s+\S+\s+tests/mut_demo\.rs\s*&&\s*", "", cmd)
+        cmd = re.split(r"\s+\(", cmd)[0].strip()
         m["demo_cmd"] = cmd or "cargo test --offline --test mut_demo"
         m["origin"] = "independent sub-agent given only the property text and a scratch worktree"
         json.dump(m, open(os.path.join(dst, "meta.json"), "w"), indent=1)
